@@ -243,7 +243,13 @@ class Gen:
                     if a != b:
                         occ[b] = occ[a] if occ[a] is not False else occ[b]; occ[a] = False
                 else:
-                    b = self.nslot(occ, lambda k: k['nf'] > 0); main.append(f'move s{a} a{b}.{self.fld(occ, b)}'); occ[a] = False
+                    b = self.nslot(occ, lambda k: k['nf'] > 0)
+                    if b == a:
+                        # moving a handle into a field reached through that very handle is not expressible in
+                        # safe Rust (the Cc would be moved while borrowed): emit a clone + drop instead
+                        main.append(f'clone s{a} a{b}.{self.fld(occ, b)}'); main.append(f'drop s{a}'); occ[a] = False
+                    else:
+                        main.append(f'move s{a} a{b}.{self.fld(occ, b)}'); occ[a] = False
             elif c == 'buffer':  # clone + drop: the classic way to buffer an object
                 a, b = self.slot(occ, True), self.slot(occ, False)
                 main.append(f'clone s{a} s{b}'); main.append(f'drop s{b}')
